@@ -6,8 +6,10 @@ use serde_json::{json, Value};
 use std::io::{BufRead, Write};
 use std::panic::{catch_unwind, AssertUnwindSafe};
 
-#[path = "/verif/probe/tables.rs"]
+#[path = "tables.rs"]
 mod tables;
+#[path = "ops_index.rs"]
+mod ops_index;
 
 fn panic_msg(e: Box<dyn std::any::Any + Send>) -> String {
 	if let Some(s) = e.downcast_ref::<&str>() {
@@ -45,7 +47,10 @@ fn dispatch(rt: &tokio::runtime::Runtime, input: &Value) -> Value {
 		"config_load" => rt.block_on(crate::main_event_loop::verif::config_load(input)),
 		"first_request" => rt.block_on(crate::main_event_loop::verif::first_request(input)),
 		"rl_run" => rt.block_on(crate::endpoint::verif::rl_run(input)),
-		_ => json!({"error": format!("unknown op {op}")}),
+		_ => match ops_index::dispatch(op, rt, input) {
+			Some(v) => v,
+			None => json!({"error": format!("unknown op {op}")}),
+		},
 	}
 }
 
